@@ -391,7 +391,7 @@ def build_lib(pym, fm, recipe, rs):
     elif recipe in ('stiffness-linsolve', 'assemble-general'):
         dom = pym.DomainDefinition(2, 2)
         x, f = S('x'), S('f')
-        bc = np.array([0, 1, 2 * (2 + 1) * 2 + 1])      # a few fixed dofs
+        bc = np.array([0, 1, 5])      # node 0 fixed, node 2 (on the x axis) fixed in y: no rigid body mode left
         if recipe == 'stiffness-linsolve':
             mK = pym.AssembleStiffness(x, S('K'), dom, bc=bc)
         else:
@@ -652,11 +652,13 @@ def run(ctx):
             d = json.load(f)
         for i, c in enumerate(d.get('cases', [])):
             cases.append((f'corpus:{os.path.basename(p)}:{i}', c))
-    if getattr(ctx, 'replay', None):
-        with open(ctx.replay) as f:
+    replaying = bool(getattr(ctx, 'replay', None))
+    rp = None
+    if replaying:       # re-execute exactly the recorded case
+        with open(ctx.replay if os.path.isabs(ctx.replay) else os.path.join(vlib.ROOT, ctx.replay)) as f:
             rp = json.load(f)['case']
-        cases = [('replay', rp['case'])] if 'case' in rp and 'modules' in rp.get('case', {}) else []
-    ngen = 0 if getattr(ctx, 'replay', None) else (900 if ctx.quick() else 6000)
+        cases = [(rp['name'], rp['case'])] if isinstance(rp, dict) and 'modules' in (rp.get('case') or {}) else []
+    ngen = 0 if replaying else (900 if ctx.quick() else 6000)
     checks, labels, kept = [], [], {}
     k = 0
     attempts = 0
@@ -714,10 +716,8 @@ def run(ctx):
     pv = {}
     g = np.random.default_rng(ctx.seed)
     reps = 20 if ctx.quick() else 150
-    if getattr(ctx, 'replay', None):
-        with open(ctx.replay) as f:
-            rp = json.load(f)['case']
-        todo_lib = [(rp['recipe'], rp['seed'], rp['nops'])] if 'recipe' in rp else []
+    if replaying:
+        todo_lib = [(rp['recipe'], rp['seed'], rp['nops'])] if isinstance(rp, dict) and 'recipe' in rp else []
     else:
         todo_lib = [(r, int(g.integers(0, 2 ** 31)), int(g.integers(0, 26))) for r in RECIPES + CONTROLS for _ in range(reps)]
         # corpus: fixed (recipe, seed, nops) triples, among them the witnesses of fixed defects
@@ -744,7 +744,7 @@ def run(ctx):
                 ctx.violation('impl-violates', recipe, 'history run equals fresh run', 'library network', desc,
                               expected='fresh network result (1e-9 relative)', got=failed[:6])
     # named witnesses
-    for name, fn in (('F16 LinSolve number of right-hand sides changes', witness_f16),
+    for name, fn in () if (replaying and not (isinstance(rp, dict) and 'witness' in rp)) else (('F16 LinSolve number of right-hand sides changes', witness_f16),
                      ('F12 SystemOfEquations/StaticCondensation respond twice', witness_f12)):
         ctx.search_evaluations += 1
         msg = fn(pym)
